@@ -132,12 +132,43 @@ def causes(err):
     return seen
 
 
+class MetaAdapter:
+    """Drive a bare MetaRunner (run / stop / register_payload / run_payload) through the same interface."""
+
+    def __init__(self):
+        from cobald.daemon.runners.meta_runner import MetaRunner
+        import functools
+
+        self._partial = functools.partial
+        self._meta_runner = MetaRunner()
+        self.running = self._meta_runner.running
+
+    def adopt(self, payload, *args, flavour, **kwargs):
+        if args or kwargs:
+            payload = self._partial(payload, *args, **kwargs)
+        return self._meta_runner.register_payload(payload, flavour=flavour)
+
+    def execute(self, payload, *args, flavour, **kwargs):
+        if args or kwargs:
+            payload = self._partial(payload, *args, **kwargs)
+        return self._meta_runner.run_payload(payload, flavour=flavour)
+
+    def accept(self):
+        return self._meta_runner.run()
+
+    def shutdown(self):
+        return self._meta_runner.stop()
+
+
 # ------------------------------------------------------------------------------ the world of one generation
 class World:
     def __init__(self, gen_spec, gen_index):
         self.spec = gen_spec
         self.gen = gen_index
-        self.runner = ServiceRunner(accept_delay=gen_spec.get("accept_delay", 0.05))
+        if gen_spec.get("mode") == "meta":
+            self.runner = MetaAdapter()
+        else:
+            self.runner = ServiceRunner(accept_delay=gen_spec.get("accept_delay", 0.05))
         self.payloads = {p["id"]: p for p in gen_spec.get("payloads", [])}
         self.services = {s["id"]: s for s in gen_spec.get("services", [])}
         self.release = threading.Event()
